@@ -429,6 +429,8 @@ func c15Seeds() (xmls, jsons [][]byte, gob []byte) {
 		`<a/>`, `<a>x</a>`, `<a b="1"><c/>t</a>`, `<r><a>1</a><b x='2'>t</b><a/></r>`,
 		`<?xml version="1.0"?><!-- c --><r><!--in--><a>1</a><?pi x?><b/><![CDATA[z]]></r>`,
 		`<n:a xmlns:n="u"><n:b/></n:a>`, `<r>&lt;&amp;&#x41;</r>`, "\xef\xbb\xbf<a/>", `<a/><b/>`, `<!DOCTYPE r><r/>`,
+		// mixed content whose text reads as a number / a boolean (cast forms)
+		`<r><a>12<b/></a><c x="1">true<d/>7</c></r>`,
 	} {
 		xmls = append(xmls, []byte(s))
 	}
@@ -473,7 +475,7 @@ func mutate1(seed []byte, f func(b []byte)) {
 
 func c15Run(c *Ctx) {
 	mustBeDefault(c)
-	c.S.Rule = "part (a): seed documents (10 XML incl. prolog/comments/PIs/CDATA/namespaces/BOM/two roots/DOCTYPE, 8 JSON incl. braces and quotes in strings, a trailing escaped backslash and numbers outside the float64 range, 1 gob) x every truncation, single-byte deletion, substitution and insertion from {< > / & \" = { } [ ] \\ a space 0xFF} at every offset (deviation bound 1; pairs of deviations on the short seeds in thorough) x every decoder form (byte, reader - as pointer, function-typed and by-value struct readers, each non-pointer kind twice in a row -, ByteReader, raw, bulk handlers, formatted, BeautifyXml, gob, x2j-wrapper Unmarshal/DocToMap), plus readers that stall with (0,nil) for ever after every prefix length; oracle: no panic, termination (reader horizon), fails iff the standard tokenizer rejects the first document (Token for the Map decoders, RawToken + name matching for the sequence decoders, encoding/json for JSON), no partial Map with an error, documented no-root result, and the decoded Map encodes without panic. part (b): Maps with <= 4 nodes over keys {a, k, \"\"} and Maps with <= 3 nodes over keys that look like path syntax {a, *, a[0], a.k} x malformed and well-formed path / key / sub-key / new-value / key-pair strings x every query and update method and the x2j-wrapper walkers; oracle: no panic, and termination (a budget of 400000 function entries / loop iterations per call, enforced by the instrumentation, turns unbounded recursion into a reported violation). non-trivial = distinct (api, outcome) pairs are counted in distinct_outcomes; every case counts."
+	c.S.Rule = "part (a): seed documents (11 XML incl. mixed content with number-like text, prolog/comments/PIs/CDATA/namespaces/BOM/two roots/DOCTYPE, 8 JSON incl. braces and quotes in strings, a trailing escaped backslash and numbers outside the float64 range, 1 gob) x every truncation, single-byte deletion, substitution and insertion from {< > / & \" = { } [ ] \\ a space 0xFF} at every offset (deviation bound 1; pairs of deviations on the short seeds in thorough) x every decoder form (byte, reader - as pointer, function-typed and by-value struct readers, each non-pointer kind twice in a row -, ByteReader, raw, bulk handlers, formatted, BeautifyXml, gob, x2j-wrapper Unmarshal/DocToMap), plus readers that stall with (0,nil) for ever after every prefix length; oracle: no panic, termination (reader horizon), fails iff the standard tokenizer rejects the first document (Token for the Map decoders, RawToken + name matching for the sequence decoders, encoding/json for JSON), no partial Map with an error, documented no-root result, and the decoded Map encodes without panic. part (b): Maps with <= 4 nodes over keys {a, k, \"\"} and Maps with <= 3 nodes over keys that look like path syntax {a, *, a[0], a.k} x malformed and well-formed path / key / sub-key / new-value / key-pair strings x every query and update method and the x2j-wrapper walkers; oracle: no panic, and termination (a budget of 400000 function entries / loop iterations per call, enforced by the instrumentation, turns unbounded recursion into a reported violation). non-trivial = distinct (api, outcome) pairs are counted in distinct_outcomes; every case counts."
 	c.S.Assumptions = []string{"reference acceptance = encoding/xml Token()/RawToken()+nesting, encoding/json Decoder", "JSON array followed by trailing bytes: accept and reject both accepted (see C06)"}
 	xmls, jsons, gob := c15Seeds()
 	xmlAPIs := []string{"NewMapXml", "NewMapXml(cast)", "NewMapXmlReader", "NewMapXmlReader(ByteReader)", "NewMapXmlReaderRaw", "NewMapXmlSeq", "NewMapXmlSeq(cast)",
@@ -543,7 +545,7 @@ func c15Run(c *Ctx) {
 	}
 
 	// part (b)
-	pieces := []string{"a", "k", "", "*", "a[0]", "a[-1]", "a[99999999999]", "a[", "a[]", "a[x]", "[0]", "a]b", "a][", "a[0]x", "*[0]", "k[1]", " ", "a[0][1]"}
+	pieces := []string{"a", "k", "", "*", "a[0]", "a[-1]", "a[99999999999]", "a[9223372036854775807]", "a[9223372036854775806]", "a[2147483647]", "a[2147483648]", "a[4294967296]", "a[18446744073709551615]", "a[", "a[]", "a[x]", "[0]", "a]b", "a][", "a[0]x", "*[0]", "k[1]", " ", "a[0][1]"}
 	var paths []string
 	seqs(pieces, 2, func(s []string) { paths = append(paths, strings.Join(s, ".")) })
 	paths = append(paths, "a.k.a", "a..k", "...", "a.k[0].a[1]", "*.*.*", "a[0].k.a[-1]", ".a.", "a.k.")
